@@ -19,10 +19,14 @@ RULE = ("programs: (a) the modelled statement language, grammar directed, classe
         "first .<cpu>, no .<cpu>, CPU switch, .bss / byte-order switch after data, forward references, conditionals on "
         "names defined later / earlier / never, .repeat, nested .include, .list); (b) base programs of every CPU of the "
         "statement corpus with define/macro/if/repeat/equ features; (c) two-pass programs (gen_prog.gen_twopass) with "
-        "forward references of small and large value.  Each program x in-process configurations {-, -l, not -q, "
+        "forward references of small and large value; (d) literal-byte programs: every byte value that is legal inside a "
+        "string / character constant (0x01..0xff without newline, closing quote, backslash) in .db/.ascii/.asciiz/.dw/"
+        "instruction operands/.define and .macro bodies/macro arguments/equ, raw bytes in comments, tab separators, CRLF.  "
+        "Each program x in-process configurations {-, -l, not -q, "
         "-dump_symbols, -dump_macros, all, dirty context 00/ff/a5, prior unrelated assembly, repeated} x 2 heap fill "
         "bytes; a subset x process-level option matrix {8 output types} x {-l, -q, -dump_symbols, -dump_macros, all} x "
-        "output names; non-trivial = at least 4 statements; distinct = distinct source text")
+        "output names; naken_util sessions (writes and asm blocks at the same / overlapping origins, then a block whose "
+        "encoding holds 0x00 bytes, 10 CPUs) against a fresh process; non-trivial = at least 4 statements; distinct = distinct source text")
 MODELLED = ("AsmContext::AsmContext(), AsmContext::init(), the pass switch and tail of main() (naken_asm.cpp), the "
             "statement loop for labels, .<cpu>, .big_endian/.little_endian, .bss/.code, .org, .db, .dw, .dc32, .resb, "
             ".define, .list, .ifdef/.ifndef/.else, .repeat (copy loop), .include (static depth, write_list_file), the "
@@ -190,6 +194,14 @@ def gather_programs(ctx):
         for _ in range(ctx.scale(1, 6)):
             src, _info = gen_prog.gen_twopass(rng, cpu, rng.randrange(4, 10))
             out.append(("twopass:" + cpu, src, [], {"twopass"}))
+    # raw bytes of every class inside literals / comments / separators (the reporting paths see the character stream)
+    for label, src in G.literal_fixed():
+        out.append((label, src, [], {"literal"}))
+    lg = G.LitGen(rng)
+    for _ in range(ctx.scale(25, 250)):
+        label, src = lg.program()
+        out.append((label, src, [], {"literal"}))
+    ctx.notes["literal_stats"] = dict(sorted(lg.stats.items()))
     return out
 
 
@@ -251,6 +263,11 @@ def inproc_stream(ctx, orc, progs, stats):
             continue
         bd = fields(base)
         stats["assembled_ok" if bd["st"] == "0" else "rejected"] = stats.get("assembled_ok" if bd["st"] == "0" else "rejected", 0) + 1
+        if "literal" in classes:
+            k = "literal_ok" if bd["st"] == "0" else "literal_rejected"
+            stats[k] = stats.get(k, 0) + 1
+            if bd["st"] != "0":
+                stats.setdefault("literal_rejected_labels", []).append(label)
         left = set()
         base_cells = cells_of(bd.get("img"))
         for fi, a, b, l in rows:
@@ -504,6 +521,159 @@ def util_stream(ctx, orc, stats):
                                     "expected": ans[i][:300], "observed": ans[i + 2][:300], "what": "assemble_code() twice differs"})
 
 
+# ---- naken_util: what an `asm` block leaves in the session image is independent of the session's history ----------
+
+UTIL_CPUS = [("msp430", 2), ("6502", 1), ("z80", 1), ("68000", 2), ("mips", 4), ("arm", 4), ("riscv", 4), ("stm8", 1),
+             ("6809", 1), ("6800", 1)]
+ZERO_DATA = [".db 0x00, 0x5a, 0x00", ".db 0", ".dw 0", ".dc32 0x00120000", ".dc32 0", ".db 0x00, 0x00, 0x00, 0x01"]
+SOLID_DATA = [".db 0xff, 0xee, 0xdd, 0xcc", ".dc32 0xdeadbeef", ".dw 0xa55a", ".db 0x81, 0x7e, 0x11, 0x22, 0x33, 0x44, 0x55, 0x66"]
+ROW13 = re.compile(r"0x([0-9a-f]{4,8}):((?: [0-9a-f]{2}){1,16})")
+
+
+def util_classify(ctx, stats):
+    """table directed: every statement of the statement corpus of a CPU is assembled alone (in-process mirror of
+    assemble_code()); 'zero' = its encoding holds a 0x00 byte, 'solid' = it holds none"""
+    lines, index = [], []
+    for cpu, _ in UTIL_CPUS:
+        for stmt in sorted(set(gen_src.statements(cpu))) + ZERO_DATA + SOLID_DATA:
+            lines.append("util13 %s 1000 %s" % (cpu, hx(stmt + "\n")))
+            index.append((cpu, stmt))
+    table = {cpu: {"zero": [], "solid": []} for cpu, _ in UTIL_CPUS}
+    for (cpu, stmt), a in zip(index, ctx.impl(lines)):
+        d = fields(a)
+        if d.get("st") != "0" or d.get("img", "-") == "-":
+            continue
+        cells = cells_of(d["img"])
+        n = int(d["org"], 16) - 0x1000
+        if n <= 0 or sorted(cells) != list(range(0x1000, 0x1000 + n)):
+            continue
+        table[cpu]["zero" if 0 in cells.values() else "solid"].append(stmt)
+    stats["util_statement_classes"] = {cpu: "%d zero / %d solid" % (len(t["zero"]), len(t["solid"])) for cpu, t in table.items()}
+    return table
+
+
+def util_script(steps):
+    out = []
+    for st in steps:
+        if st[0] == "asm":
+            out.append("asm" if st[1] is None else "asm 0x%x" % st[1])
+            out += list(st[2])
+            out.append("")
+        else:
+            out.append(st[1])
+    return out
+
+
+def util_cases(ctx, table):
+    """[(cpu, origin, block, history steps)]; a history step is ('asm', origin | None, statements) or ('cmd', text)"""
+    rng = ctx.rng
+    cases = []
+    # the seeded shape and its neighbours, always
+    cases.append(("msp430", 0x100, ["mov.w #0x1200, r5", "mov.w #0x0034, r6"], [("asm", 0x100, ["mov.w #0xabcd, r5", "mov.w #0xef01, r6"])]))
+    cases.append(("msp430", 0x100, ["mov.w #0x1200, r5"], [("cmd", "write 0x100 0x11 0x22 0x33 0x44 0x55 0x66")]))
+    cases.append(("msp430", 0x102, ["mov.w #0x0034, r6", ".db 0, 0"], [("asm", 0x100, ["mov.w #0xabcd, r5", "mov.w #0xef01, r6", "mov.w #0x7777, r7"])]))
+    for cpu, align in UTIL_CPUS:
+        t = table[cpu]
+        if not t["zero"]:
+            continue
+        nfix = 1
+        for k in range(nfix + ctx.scale(2, 20)):
+            origin = rng.choice([0x100, 0x200, 0x1000, 0xfff0, 0x20000, 0x1fff8])
+            block = [rng.choice(t["zero"]) for _ in range(rng.randrange(1, 4))]
+            if rng.random() < 0.3 and t["solid"]:
+                block.insert(rng.randrange(len(block) + 1), rng.choice(t["solid"]))
+            solid = t["solid"] or SOLID_DATA
+            hist = []
+            fill = "write 0x%x " % (origin - 8) + " ".join("0x%02x" % rng.randrange(1, 256) for _ in range(56))
+            if k < nfix or rng.random() < 0.6:
+                hist.append(("cmd", fill))
+            for _ in range(rng.randrange(0 if hist else 1, 4)):
+                r = rng.random()
+                if r < 0.35:
+                    hist.append(("asm", origin, [rng.choice(solid) for _ in range(rng.randrange(1, 6))]))
+                elif r < 0.6:
+                    hist.append(("asm", origin + align * rng.choice([-2, -1, 1, 2, 3]), [rng.choice(solid) for _ in range(rng.randrange(1, 5))]))
+                elif r < 0.7:
+                    # continuation: the block without an origin goes behind the one before it
+                    hist.append(("asm", origin - 2 * align, [rng.choice(SOLID_DATA[:3])]))
+                    hist.append(("asm", None, [rng.choice(solid) for _ in range(rng.randrange(1, 4))]))
+                elif r < 0.8:
+                    hist.append(("asm", origin, list(block)))           # the same block earlier
+                elif r < 0.9:
+                    a = origin + 4 * rng.randrange(0, 4)
+                    hist.append(("cmd", "write32 0x%x 0x%08x 0x%08x" % (a, rng.randrange(1 << 32) | 0x01010101, rng.randrange(1 << 32) | 0x01010101)))
+                else:
+                    a = origin + 2 * rng.randrange(0, 8)
+                    hist.append(("cmd", "write16 0x%x 0x%04x" % (a, rng.randrange(1 << 16) | 0x0101)))
+            cases.append((cpu, origin, block, hist))
+    return cases
+
+
+def util_print_cells(out):
+    cells = {}
+    for m in ROW13.finditer(out):
+        a = int(m.group(1), 16)
+        for i, v in enumerate(m.group(2).split()):
+            cells[a + i] = int(v, 16)
+    return cells
+
+
+def util_run_case(util, case):
+    cpu, origin, block, hist = case
+    show = ["print 0x%x-0x%x" % (origin - 8, origin + 55), "quit"]
+    fresh = util_script([("asm", origin, block)]) + show
+    after = util_script(list(hist) + [("asm", origin, block)]) + show
+    a = nvlib.run_util(util, ["-" + cpu], "\n".join(fresh) + "\n", timeout=60)
+    b = nvlib.run_util(util, ["-" + cpu], "\n".join(after) + "\n", timeout=60)
+    return fresh, after, a, b
+
+
+def util_history_stream(ctx, orc, stats):
+    util = ctx.repo["naken_util"]
+    table = util_classify(ctx, stats)
+    cases = util_cases(ctx, table)
+    ext = ctx.impl(["util13 %s %x %s" % (cpu, origin, hx("\n".join(block) + "\n")) for cpu, origin, block, _ in cases])
+    with ThreadPoolExecutor(nvlib.NPROC) as ex:
+        runs = list(ex.map(lambda c: util_run_case(util, c), cases))
+    dist = {}
+    for case, e, (fresh, after, a, b) in zip(cases, ext, runs):
+        cpu, origin, block, hist = case
+        orc["cases"] += 2
+        d = fields(e)
+        if d.get("st") != "0" or "Error assembling" in a["out"]:
+            dist["block-rejected"] = dist.get("block-rejected", 0) + 1
+            continue
+        n = int(d["org"], 16) - origin
+        want_cells = cells_of(d.get("img"))
+        ca, cb = util_print_cells(a["out"]), util_print_cells(b["out"])
+        extent = range(origin, origin + min(n, 56))
+        key = "%s:%s" % (cpu, "+".join(sorted(set("asm-same" if h[0] == "asm" and h[1] == origin else "asm-overlap" if h[0] == "asm" and h[1] is not None
+                                                    else "asm-cont" if h[0] == "asm" else h[1].split(" ")[0] for h in hist))))
+        dist[key] = dist.get(key, 0) + 1
+        stats["util_history_zero_bytes"] = stats.get("util_history_zero_bytes", 0) + sum(1 for x in extent if ca.get(x) == 0)
+        rec = {"cpu": cpu, "origin": origin, "n": len(extent), "fresh": fresh, "after": after}
+
+        def fail(kind, expected, observed):
+            orc["failures"].append({"sig": "C13:%s:%s:%s" % (kind, cpu, nvlib.sha("\n".join(after).encode())[:10]),
+                                    "input": "naken_util -%s <<EOF\n%s\nEOF" % (cpu, "\n".join(after)), "expected": expected,
+                                    "observed": observed, "what": kind + ": the bytes an asm block leaves depend on what the session did before",
+                                    "util": rec})
+        if a["rc"] != 0 or b["rc"] != 0 or any(x not in ca or x not in cb for x in extent):
+            fail("util-history-crash", "two listings of the range", "rc=%d/%d %s" % (a["rc"], b["rc"], (a["err"] + b["err"])[-300:]))
+            continue
+        bad = [x for x in extent if ca[x] != cb[x]]
+        if bad:
+            fail("util-history", "0x%x: %s (fresh process)" % (origin, " ".join("%02x" % ca[x] for x in extent)),
+                 "0x%x: %s (after %d earlier steps; first difference at 0x%x)" % (origin, " ".join("%02x" % cb[x] for x in extent), len(hist), bad[0]))
+            continue
+        bad = [x for x in extent if want_cells.get(x, 0) != ca[x]]
+        if bad:
+            fail("util-block-image", "the bytes the assembler produces for the block: " + " ".join("%02x" % want_cells.get(x, 0) for x in extent),
+                 "fresh naken_util process: " + " ".join("%02x" % ca[x] for x in extent))
+    stats["util_history_sessions"] = len(cases)
+    stats["util_history_distribution"] = dict(sorted(dist.items()))
+
+
 def static_stream(ctx, orc, stats):
     """the static `depth` of include_parse(): 40 assemblies that fail inside an include file, then a valid one with
     nested includes — in ONE harness process — against the valid one in a fresh process"""
@@ -571,6 +741,7 @@ def oracle(ctx, orc, focus=None):
     inproc_stream(ctx, orc, progs, stats)
     process_stream(ctx, orc, progs, stats)
     util_stream(ctx, orc, stats)
+    util_history_stream(ctx, orc, stats)
     static_stream(ctx, orc, stats)
     valgrind_stream(ctx, orc, progs, stats)
     by = {}
@@ -578,6 +749,7 @@ def oracle(ctx, orc, focus=None):
         k = label.split(":")[0]
         by[k] = by.get(k, 0) + 1
     stats["programs"] = by
+    stats["literal_distribution"] = ctx.notes.get("literal_stats")
     orc["stats"] = stats
     orc["distinct_nontrivial"] = len(set(p[1] for p in progs if p[1].count("\n") >= 4))
     orc["samples"] = [{"label": progs[i][0], "source_head": progs[i][1][:80]} for i in range(0, len(progs), max(1, len(progs) // 5))][:5]
@@ -587,6 +759,17 @@ def replay(ctx, rec):
     f = rec.get("failure", {})
     src = f.get("input", "")
     out = {"fails": False, "sig": f.get("sig")}
+    if f.get("util"):
+        u = f["util"]
+        util = ctx.repo["naken_util"]
+        a = nvlib.run_util(util, ["-" + u["cpu"]], "\n".join(u["fresh"]) + "\n")
+        b = nvlib.run_util(util, ["-" + u["cpu"]], "\n".join(u["after"]) + "\n")
+        ca, cb = util_print_cells(a["out"]), util_print_cells(b["out"])
+        ext = range(u["origin"], u["origin"] + u["n"])
+        out["fresh"] = " ".join("%02x" % ca.get(x, -1) for x in ext)
+        out["after"] = " ".join("%02x" % cb.get(x, -1) for x in ext)
+        out["fails"] = out["fresh"] != out["after"] or a["rc"] != 0 or b["rc"] != 0
+        return out
     if f.get("line") and "pass1-leftover" in f.get("sig", ""):
         a = ctx.impl([f["line"]])
         out["answers"] = a
